@@ -17,6 +17,15 @@ func getRegFloorIndex(instructionCode []byte, pc ProgramCounter) uint8 {
 	return min(12, (instructionCode[pc+1])>>4)
 }
 
+// immLen is min(4, max(0, skip-used)) computed without unsigned wrap-around: the length of an
+// immediate that takes what is left of the instruction after `used` operand bytes (GP A.5.x).
+func immLen(skipLength, used ProgramCounter) ProgramCounter {
+	if skipLength <= used {
+		return 0
+	}
+	return min(4, skipLength-used)
+}
+
 // A.5.2
 func decodeOneImmediate(instructionCode []byte, pc ProgramCounter, skipLength ProgramCounter) (int, error) {
 	lX := min(4, skipLength)
@@ -35,7 +44,7 @@ func decodeOneRegisterAndOneExtendedWidthImmediate(instructionCode []byte, pc Pr
 
 // A.5.4
 func decodeTwoImmediates(instructionCode []byte, pc ProgramCounter, skipLength ProgramCounter) (uint64, uint64, error) {
-	lX := ProgramCounter(min(4, uint8(instructionCode[pc+1])))
+	lX := ProgramCounter(min(4, uint8(instructionCode[pc+1])%8))
 
 	decodedVX, err := utils.DeserializeFixedLength(instructionCode[pc+2:pc+2+lX], types.U64(lX))
 	if err != nil {
@@ -47,7 +56,7 @@ func decodeTwoImmediates(instructionCode []byte, pc ProgramCounter, skipLength P
 		return 0, 0, fmt.Errorf("opcosde %s(%d) at pc=%d signExtend lx raise error : %w", zeta[opcode(instructionCode[pc])], opcode(instructionCode[pc]), pc, err)
 	}
 
-	lY := min(4, max(0, skipLength-lX-1))
+	lY := immLen(skipLength, lX+1)
 	decodedVy, err := utils.DeserializeFixedLength(instructionCode[pc+2+lX:pc+2+lX+lY], types.U64(lY))
 	if err != nil {
 		return 0, 0, fmt.Errorf("opcosde %s(%d) at pc=%d deserialization vy raise error : %w", zeta[opcode(instructionCode[pc])], opcode(instructionCode[pc]), pc, err)
@@ -77,7 +86,7 @@ func decodeOneOffset(instructionCode []byte, pc ProgramCounter, skipLength Progr
 // returns rA, vX
 func decodeOneRegisterAndOneImmediate(instructionCode []byte, pc ProgramCounter, skipLength ProgramCounter) (uint8, uint64, error) {
 	rA := min(12, instructionCode[pc+1]%16)
-	lX := min(4, max(0, skipLength-1))
+	lX := immLen(skipLength, 1)
 
 	immediateData := instructionCode[pc+2 : pc+2+lX]
 	immediate, _, err := ReadUintSignExtended(immediateData, len(immediateData))
@@ -92,7 +101,7 @@ func decodeOneRegisterAndOneImmediate(instructionCode []byte, pc ProgramCounter,
 // A.5.7
 func decodeOneRegisterAndTwoImmediates(instructionCode []byte, pc ProgramCounter, skipLength ProgramCounter) (int8, uint64, uint64, error) {
 	rA := int8(min(12, instructionCode[pc+1]%16))
-	lX := min(4, ProgramCounter(uint8((instructionCode[pc+1] >> 4))))
+	lX := min(4, ProgramCounter(uint8((instructionCode[pc+1]>>4)%8)))
 	pcMargin := pc + 2 + lX
 	decodedVX, err := utils.DeserializeFixedLength(instructionCode[pc+2:pcMargin], types.U64(lX))
 	if err != nil {
@@ -103,7 +112,7 @@ func decodeOneRegisterAndTwoImmediates(instructionCode []byte, pc ProgramCounter
 		return 0, 0, 0, fmt.Errorf("opcode %s(%d) at pc=%d signExtend vx raise error : %w", zeta[opcode(instructionCode[pc])], opcode(instructionCode[pc]), pc, err)
 	}
 
-	lY := min(4, max(0, skipLength-lX-1))
+	lY := immLen(skipLength, lX+1)
 	decodedVY, err := utils.DeserializeFixedLength(instructionCode[pcMargin:pcMargin+lY], types.U64(lY))
 	if err != nil {
 		return 0, 0, 0, fmt.Errorf("opcode %s(%d) at pc=%d deserialize vy raise error : %w", zeta[opcode(instructionCode[pc])], opcode(instructionCode[pc]), pc, err)
@@ -121,7 +130,7 @@ func decodeOneRegisterAndTwoImmediates(instructionCode []byte, pc ProgramCounter
 func decodeOneRegisterOneImmediateAndOneOffset(instructionCode []byte, pc ProgramCounter, skipLength ProgramCounter) (uint8, uint64, ProgramCounter, error) {
 	rA := min(12, instructionCode[pc+1]%16)
 	lX := ProgramCounter(min(4, (instructionCode[pc+1]>>4)%8))
-	lY := min(4, max(0, skipLength-lX-1))
+	lY := immLen(skipLength, lX+1)
 
 	immediateData := instructionCode[pc+2 : pc+2+lX]
 	immediate, _, err := ReadUintSignExtended(immediateData, len(immediateData))
@@ -151,7 +160,7 @@ func decodeTwoRegisters(instructionCode []byte, pc ProgramCounter) (rD uint8, rA
 func decodeTwoRegistersAndOneImmediate(instructionCode []byte, pc ProgramCounter, skipLength ProgramCounter) (uint8, uint8, uint64, error) {
 	rA := min(12, instructionCode[pc+1]&15)
 	rB := min(12, instructionCode[pc+1]>>4)
-	lX := min(4, max(0, skipLength-1))
+	lX := immLen(skipLength, 1)
 	decodedVX, err := utils.DeserializeFixedLength(instructionCode[pc+2:pc+2+lX], types.U64(lX))
 	if err != nil {
 		return 0, 0, 0, fmt.Errorf("opcode %s(%d) at pc=%d deserialization error : %w", zeta[opcode(instructionCode[pc])], opcode(instructionCode[pc]), pc, err)
@@ -169,7 +178,7 @@ func decodeTwoRegistersAndOneImmediate(instructionCode []byte, pc ProgramCounter
 func decodeTwoRegistersAndOneOffset(instructionCode []byte, pc ProgramCounter, skipLength ProgramCounter) (uint8, uint8, ProgramCounter, error) {
 	rA := min(12, instructionCode[pc+1]%16)
 	rB := min(12, instructionCode[pc+1]>>4)
-	lX := min(4, max(0, skipLength-1))
+	lX := immLen(skipLength, 1)
 
 	offsetData := instructionCode[pc+2 : pc+2+lX]
 	offset, _, err := ReadIntFixed(offsetData, len(offsetData))
@@ -186,7 +195,7 @@ func decodeTwoRegistersAndTwoImmediates(instructionCode []byte, pc ProgramCounte
 	rA := min(12, instructionCode[pc+1]%16)
 	rB := min(12, instructionCode[pc+1]>>4)
 	lX := ProgramCounter(min(4, instructionCode[pc+2]%8))
-	lY := min(4, max(0, skipLength-lX-2))
+	lY := immLen(skipLength, lX+2)
 
 	// both immediates are sign-extended (GP A.5.12: vX = X_lX(...), vY = X_lY(...))
 	vXData := instructionCode[pc+3 : pc+3+lX]
